@@ -525,6 +525,10 @@ def build_query(case, objs, quantifier="an", **qkw):
     def cond(c):
         k = c[0]
         if k == "cmp":
+            if len(c) == 5 and c[4] == "bare":
+                # a BARE attribute used as a condition (its truthiness); for the analysis, the model and the Spec it is the
+                # comparison `attr != 0` (the attributes used are int-valued)
+                return opnd(c[2])
             l, r = opnd(c[2]), opnd(c[3])
             return {"==": l.__eq__, "!=": l.__ne__, "<": l.__lt__, "<=": l.__le__, ">": l.__gt__, ">=": l.__ge__}[c[1]](r)
         if k == "contains":
@@ -843,6 +847,10 @@ def gen_subq_case(rng: Rng, allow_empty: bool = False) -> dict:
     def atom(names):
         pv = [nm for nm in names if typ[nm] == "P"]
         r = rng.random()
+        if r < 0.12 and pv:
+            # a bare attribute as a condition (its truthiness), also as the ONLY condition of the sub-query
+            return ["cmp", "!=", ["attr", ["var", rng.choice(pv)], rng.choice(["a", "b"])], ["lit", 0], "bare"]
+        r = rng.random()
         if r < 0.2 and pv:
             return ["cmp", rng.choice(["==", "!="]), ["var", rng.choice(pv)], ["var", rng.choice(pv)] if rng.chance(0.6) else ["attr", ["var", rng.choice(pv)], "child"]]
         if r < 0.3 and pv:
@@ -942,6 +950,8 @@ def gen_case(rng: Rng, profile: str = "c01", extras: bool = False) -> dict:
         r = rng.random()
         pvars = [n for n in names if case["vars"][n] == "P"]
         tvars = [n for n in names if case["vars"][n] == "T"]
+        if profile != "c02" and pvars and rng.chance(0.04):   # a bare attribute as a condition (its truthiness)
+            return ["cmp", "!=", ["attr", ["var", rng.choice(pvars)], rng.choice(["a", "b"])], ["lit", 0], "bare"]
         if r < 0.10 and pvars:   # contains(items, int)
             return ["contains", ["attr", ["var", rng.choice(pvars)], "items"], int_operand()]
         if r < 0.16 and pvars:   # contains(kids, P-valued)
